@@ -2,6 +2,8 @@
    C01's compile-correctness theorems carry them over to the compiled form). *)
 From Ucg Require Import sem.Sem sem.Scope_Lemmas.
 From Ucg Require bind.Bind bind.Bind_Lemmas bind.Bind_Mutants.
+From Ucg Require Import vm.Ops sem.Reserved_Lemmas.
+From UcgGen Require Import Reserved.
 
 Section C10.
   Variable fo : float_ops.
@@ -48,6 +50,20 @@ Theorem documented_reserved_words_rejected :
   forallb is_reserved (map b ["self"; "assert"; "true"; "false"; "let"; "import"; "as"; "in"; "is"; "not"; "fail";
                               "select"; "func"; "module"; "env"; "map"; "filter"; "reduce"; "NULL"; "out";
                               "constraint"; "convert"; "TRACE"]%string) = true.
+Proof. vm_compute. reflexivity. Qed.
+
+(* the reserved words of the models are, as a set, the list the real VM consults (gen/Reserved.v is regenerated from
+   `fn reserved_words` of vm.rs on every run); every documented reserved word is in that list *)
+Theorem reserved_words_are_the_sources :
+  (forall x, is_reserved x = existsb (bytes_eqb x) gen_reserved) /\
+  (forall x, vm_is_reserved x = existsb (bytes_eqb x) gen_reserved).
+Proof. exact (conj reserved_is_generated vm_reserved_is_generated). Qed.
+
+Theorem documented_reserved_words_in_the_sources :
+  forallb (fun x => existsb (bytes_eqb x) gen_reserved)
+          (map b ["self"; "assert"; "true"; "false"; "let"; "import"; "as"; "in"; "is"; "not"; "fail";
+                  "select"; "func"; "module"; "env"; "map"; "filter"; "reduce"; "NULL"; "out";
+                  "constraint"; "convert"; "TRACE"]%string) = true.
 Proof. vm_compute. reflexivity. Qed.
 
 (* ---- the statement layer of the compiled form: every statement form that binds a name (let, let with a constraint, the
